@@ -262,6 +262,14 @@ def usedLA (g : TGrammar) (nt : Nonterm) : List Nat :=
 
 def unionNat (a b : List Nat) : List Nat := a ++ b.filter fun x => !a.contains x
 
+/-- Two observed defects of `PropagateLookaheads` that the mirror reproduces while they are present in the real
+code (the harness probes both on fixed witnesses and passes the result with every case):
+`alias` — `requiredFlags` aliases the reuse buffer; `short` — `entryPoints` stops at the first empty alternative. -/
+structure Quirks where
+  alias : Bool
+  short : Bool
+deriving Repr, DecidableEq, Inhabited
+
 /-- The alternatives `entryPoints` actually scans: the loop over a `Choice` is `ret = ret && entryPoints(c)`,
 so nothing after the first alternative that is not "compatible" (here: an empty one) is visited.
 `full = true` scans all of them (used for the witness of the propagation certificate). -/
@@ -286,9 +294,9 @@ def flagsIter (g : TGrammar) (full : Bool) (req : List (List Nat)) : Nat → Lis
     if nxt.map List.length == cur.map List.length then cur else flagsIter g full req fuel nxt
 
 /-- the lookahead flags each nonterminal can accept (least solution of the equations of step 1) -/
-def laFlags (g : TGrammar) : List (List Nat) :=
+def laFlags (q : Quirks) (g : TGrammar) : List (List Nat) :=
   let req := g.nts.map (usedLA g)
-  flagsIter g false req (g.nts.length * g.params.length + 2) req
+  flagsIter g (!q.short) req (g.nts.length * g.params.length + 2) req
 
 /-- the same closure over ALL alternatives: where a flag can flow to a user through first symbols; the
 witness handed to the propagation certificate -/
@@ -312,10 +320,11 @@ def requiredFlags (g : TGrammar) : List (List Nat) := g.nts.map fun nt => (sortN
 /-- What step 3 of `PropagateLookaheads` actually reads: every `requiredFlags` slice aliases the same
 buffer, so it sees what the LAST writers left there (the later nonterminals' flags and the argument masks
 of step 1), cut to its own length. -/
-def requiredAliased (g : TGrammar) : List (List Nat) :=
+def requiredAliased (q : Quirks) (g : TGrammar) : List (List Nat) :=
   let req := requiredFlags g
+  if !q.alias then req else
   let buf := req.foldl writeBuf (List.replicate g.params.length 0)
-  let buf := g.nts.foldl (fun buf nt => (nt.scanned false).foldl (fun buf a =>
+  let buf := g.nts.foldl (fun buf nt => (nt.scanned (!q.short)).foldl (fun buf a =>
     match a.entry with
     | none => buf
     | some (_, args) =>
@@ -426,15 +435,15 @@ inductive Status where
 deriving Repr, DecidableEq, Inhabited
 
 /-- `PropagateLookaheads`: `.err` = a reported error, `.fatal` = `checkOrDie` fails. -/
-def propagate (g : TGrammar) : Status × TGrammar :=
-  let flags := laFlags g
+def propagate (q : Quirks) (g : TGrammar) : Status × TGrammar :=
+  let flags := laFlags q g
   let compat := g.nts.map fun nt => nt.alts.all fun a => !a.rhs.isEmpty
   let s0 : PState := { nts := g.nts, seen := [], stack := [], numLA := g.nts.map fun _ => 0, err := false }
   let s := seedArgs g flags s0
   let s := propLoop compat flags (g.nts.length * g.params.length + 1) s
   -- step 3: every flag a nonterminal looks at must have been provided. `requiredFlags` of all nonterminals
   -- are slices of ONE reuse buffer (`used.Slice(reuse)`), which later calls overwrite: mirrored as is.
-  let req := requiredAliased g
+  let req := requiredAliased q g
   let missing := (req.zip s.nts).any fun (r, nt) => r.any fun p => !nt.params.contains p && (usedLA g nt).contains p
   -- step 4
   let nts1 := (s.nts.zip s.numLA).map fun (nt, k) =>
@@ -684,11 +693,11 @@ def propCertB (g : TGrammar) (F : List (List Nat)) (g' : TGrammar) : Bool :=
 
 /-- the whole template pipeline of `compileParser`; the last component says whether the propagation
 certificate holds (always expected for status `ok`) -/
-def compile (src : TGrammar) (fuel : Nat) : Status × Option (List Inst × Grammar) × Bool :=
+def compile (q : Quirks) (src : TGrammar) (fuel : Nat) : Status × Option (List Inst × Grammar) × Bool :=
   match resolveAll src with
   | none => (.err, none, false)
   | some m =>
-    match propagate m with
+    match propagate q m with
     | (.ok, m') =>
       (match instantiate m' fuel with
        | some r => (.ok, some r, propCertB m (laFlowFlags m) m')
